@@ -568,7 +568,38 @@ def root(x: f32[{R}, {C}], y: f32[{C}]):
     return GenProgram(HEADER + body, "root", [], [], {"template": "nested_windows", "prefer_ops": ["reorder_stmts", "reorder_stmts", "fuse", "fission", "remove_loop", "inline_window", "stage_mem", "std.hoist_stmt", "parallelize_loop", "std.auto_stage_mem"]})
 
 
-ALL = [t_temp2d, t_temp2d_call, t_two_loops, t_reduce_const, t_sliding, t_two_temps, t_split_range, t_writes, t_matmul, t_conv1d, t_blur, t_name_clash, t_config_loop, t_mod_trip, t_quasi, t_config_arg, t_config_first_iter, t_dup_blocks, t_nested_windows]
+def t_sig_calls(rng):
+    """2-D (non-square) tensors handed to sub-procedures whole, as windows and element-wise, and a
+    size argument whose spelling is reused by a loop iterator: what transpose / partial_eval /
+    set_window / set_precision have to treat consistently at every use"""
+    const = rng.random() < 0.5
+    m, n = (str(_c(rng, [2, 3])), str(_c(rng, [4, 5]))) if const else ("m", "n")
+    sizes = "" if const else "m: size, n: size, "
+    passm = "" if const else "m, n, "
+    csig = "" if const else "m: size, n: size, "
+    whole = _c(rng, [f"rowsum({passm}A, y)", f"rowsum({passm}A, y)", f"rowsum({passm}A[0:{m}, 0:{n}], y)"])
+    dense = "A: f32[{m}, {n}]" if "0:" not in whole else "A: [f32][{m}, {n}]"
+    dense = dense.format(m=m, n=n)
+    direct = _c(rng, [f"for j in seq(0, {n}):\n        z[j] = A[0, j]", f"for i in seq(0, {m}):\n        for j in seq(0, {n}):\n            z[j] += A[i, j]", "pass"])
+    shadow = _c(rng, ["k", "k", "n" if not const else "k"])
+    body = f"""@proc
+def rowsum({csig}{dense}, y: f32[{m}]):
+    for i in seq(0, {m}):
+        for j in seq(0, {n}):
+            y[i] += A[i, j]
+
+
+@proc
+def root({sizes}A: f32[{m}, {n}], y: f32[{m}], z: f32[{n}]):
+    {whole}
+    {direct}
+    for {shadow} in seq(0, {m}):
+        y[{shadow}] = y[{shadow}] * 2.0
+"""
+    return GenProgram(HEADER + body, "root", ["rowsum"], [], {"template": "sig_calls", "prefer_ops": ["transpose", "transpose", "partial_eval", "set_window", "set_precision", "inline"]})
+
+
+ALL = [t_temp2d, t_temp2d_call, t_two_loops, t_reduce_const, t_sliding, t_two_temps, t_split_range, t_writes, t_matmul, t_conv1d, t_blur, t_name_clash, t_config_loop, t_mod_trip, t_quasi, t_config_arg, t_config_first_iter, t_dup_blocks, t_nested_windows, t_sig_calls]
 
 
 def any_template(rng):
